@@ -293,9 +293,9 @@ theorem run_freed (st : St) (hf : st.freed = true) : ∀ es, st.run es = st := b
 theorem run_append (st : St) (a b : List Event) : st.run (a ++ b) = (st.run a).run b := by
   unfold St.run; rw [List.foldl_append]
 
-def td1 (st : St) : St := st.dropHolders (st.holders.filter fun h => isAnyObs h.kind)
-def td2 (st : St) : St := (td1 st).dropHolders ((td1 st).holders.filter fun h => isNode h.kind)
-def td3 (st : St) : St := (td2 st).dropHolders ((td2 st).holders.filter fun h => isAsync h.kind)
+def td1 (st : St) : St := st.releaseHolders (st.holders.filter fun h => isAnyObs h.kind)
+def td2 (st : St) : St := (td1 st).releaseHolders ((td1 st).holders.filter fun h => isNode h.kind)
+def td3 (st : St) : St := (td2 st).releaseHolders ((td2 st).holders.filter fun h => isAsync h.kind)
 
 def td4 (st : St) : St := (td3 st).eps.foldl St.freeEndpoint (td3 st)
 def tdEnd (st : St) : St :=
@@ -317,7 +317,7 @@ theorem teardown_state_empty {st : St} (h : Reachable st) (hf : st.freed = false
     (st.step .freeContext).1.partials = [] := by
   have hI := reachable_inv h
   have h3 : Inv (td3 st) :=
-    Inv.closed.dropHolders (Inv.closed.dropHolders (Inv.closed.dropHolders hI _) _) _
+    Inv.closed.releaseHolders (Inv.closed.releaseHolders (Inv.closed.releaseHolders hI _) _) _
   have h4 : Inv (td4 st) := (freeEndpoints_spec (td3 st).eps (td3 st) h3).1
   obtain ⟨hs, hh⟩ : (td4 st).sessions = [] ∧ (td4 st).holders = [] := freeEndpoints_empty h3
   have h5 : Inv (tdEnd st) := Inv.closed.teardownEnd _ h4
@@ -598,6 +598,106 @@ theorem end_call_home_frees_and_unlinks {st : St} (h : Reachable st) (p : Peer) 
   · rw [hL, hd]; rfl
   · rw [hE, hd]; rfl
 
+/-! ### D16 lifted (round R12c): the call-home reference may be released at ANY time -/
+
+/-- what `coap_session_release_lkd` leaves of the session when holder `x` lets go -/
+theorem released_session_mem {st : St} (x : Holder) (hx : x ∈ st.holders) (s : Sess) (hs : s ∈ st.sessions)
+    (hsx : s.sid = x.sid) : Sess.release s ∈ (st.dropHolder x).sessions := by
+  unfold St.dropHolder
+  rw [if_pos hx]
+  exact mem_updSess.mpr ⟨s, hs, by simp [hsx]⟩
+
+/-- THE LAST RELEASE, from whatever code path (`St.releaseHolder` is what every library object does when it goes: an
+observation in coap_delete_observer, an async entry in coap_free_async_sub, a queued message in coap_delete_node_lkd, the
+application's coap_session_release): if the holder that goes is the only one left (`ref = 1`) on a session the application
+has turned into a CLIENT session, the session is in no table afterwards, the holder is gone and NO holder points at the
+session (nothing dangling), the ledger grew by the holder's own free, the frees of what hung off the session and ONE
+free of the session, and the only event is the ghost `handed` (no session-deleted event). -/
+theorem last_release_frees_client_session {st : St} (h : Reachable st) (x : Holder) (hx : x ∈ st.holders) (s : Sess)
+    (hs : s ∈ st.sessions) (hsx : s.sid = x.sid) (hr : s.ref = 1) (hc : s.client = true) :
+    (∀ t ∈ (st.releaseHolder x).sessions, t.sid ≠ s.sid) ∧
+    (st.releaseHolder x).holders = st.holders.erase x ∧
+    (∀ y ∈ (st.releaseHolder x).holders, y.sid ≠ s.sid) ∧
+    (st.releaseHolder x).ledger = (st.dropHolder x).ledger ++
+      (((st.dropHolder x).partials.filter (fun y => y.2 == s.sid)).map fun y => .free y.1) ++ [.free s.sid] ∧
+    (st.releaseHolder x).events = st.events ++ [.handed s.sid] := by
+  have hI := reachable_inv h
+  have hI1 : Inv (st.dropHolder x) := Inv.closed.dropHolder _ _ hI
+  have hI' : Inv (st.releaseHolder x) := Inv.closed.releaseHolder hI x
+  have hs1 := released_session_mem x hx s hs hsx
+  have hcf := client_free_releases_and_unlinks hI1.S (Sess.release s) hs1 (by simp [Sess.release, hr])
+    (by simp [Sess.release, hc])
+  have hsid : (Sess.release s).sid = s.sid := rfl
+  rw [hsid] at hcf
+  have hrel : st.releaseHolder x = (st.dropHolder x).clientFree s.sid := by unfold St.releaseHolder; rw [hsx]
+  rw [hrel] at hI' ⊢
+  obtain ⟨hL, _, hSs, hE, hH⟩ := hcf
+  have hnone : ∀ t ∈ ((st.dropHolder x).clientFree s.sid).sessions, t.sid ≠ s.sid := by
+    intro t ht
+    rw [hSs, List.mem_filter] at ht
+    simpa using ht.2
+  have hdh : (st.dropHolder x).holders = st.holders.erase x := by unfold St.dropHolder; rw [if_pos hx]
+  have hde : (st.dropHolder x).events = st.events := by unfold St.dropHolder; rw [if_pos hx]; rfl
+  refine ⟨hnone, by rw [hH, hdh], ?_, hL, by rw [hE, hde]⟩
+  intro y hy e
+  obtain ⟨t, ht, e'⟩ := hI'.H.live y hy
+  exact hnone t ht (e'.trans e)
+
+/-- … and while ANOTHER reference is left, or on a server session, the release frees nothing: it is the plain
+`--ref` + unlink of the holder (`St.dropHolder`), the session stays where it is. -/
+theorem release_keeps_referenced_session {st : St} (h : Reachable st) (x : Holder) (hx : x ∈ st.holders) (s : Sess)
+    (hs : s ∈ st.sessions) (hsx : s.sid = x.sid) (hc : s.client = false ∨ s.ref ≠ 1) :
+    st.releaseHolder x = st.dropHolder x ∧ Sess.release s ∈ (st.releaseHolder x).sessions := by
+  have hI := reachable_inv h
+  have hI1 : Inv (st.dropHolder x) := Inv.closed.dropHolder _ _ hI
+  have hs1 := released_session_mem x hx s hs hsx
+  have hg := getSess_of_mem hI1.S hs1
+  have hpos : 0 < s.ref := by
+    rw [hI.H.ref s hs]
+    unfold St.holds
+    exact List.countP_pos_iff.mpr ⟨x, hx, by simp [hsx]⟩
+  have hrel : st.releaseHolder x = st.dropHolder x := by
+    unfold St.releaseHolder St.clientFree
+    rw [← hsx]
+    have hsid : (Sess.release s).sid = s.sid := rfl
+    rw [hsid] at hg
+    rcases hc with hc | hc
+    · simp [hg, Sess.release, hc]
+    · have : s.ref - 1 ≠ 0 := by omega
+      simp [hg, Sess.release, this]
+  exact ⟨hrel, by rw [hrel]; exact hs1⟩
+
+/-- `coap_session_release(session)` with the call-home reference at ANY time: the step is the release of the application's
+token in full -/
+theorem end_call_home_is_release (st : St) (p : Peer) (s : Sess) (x : Holder) (hf : st.freed = false)
+    (hl : st.lookup p = some s) (hx : st.findHolder s.sid isHome = some x) :
+    (st.step (.endCallHome p)).1 = st.releaseHolder x ∧ (st.step (.endCallHome p)).2 = .ok := by
+  obtain ⟨_, hxs, _⟩ := findHolder_some hx
+  have hxs' : x.sid = s.sid := by simpa using hxs
+  unfold St.step St.releaseHolder
+  simp only [hf, Bool.false_eq_true, if_false, hl, hx, hxs', and_self]
+
+/-- EARLY release (D16 lifted): the application lets its call-home reference go while something else still refers to the
+session (`ref ≠ 1`: an observation, an async entry, a queued message, a reference of its own).  Nothing is freed: the
+session stays in its endpoint's table as a CLIENT session with one reference less, the only holder that went is the
+application's token, ledger and events are unchanged — from now on the session's life ends with its LAST holder
+(`last_release_frees_client_session`), wherever that one lets go. -/
+theorem early_release_keeps_session {st : St} (h : Reachable st) (p : Peer) (s : Sess) (x : Holder)
+    (hf : st.freed = false) (hl : st.lookup p = some s) (hx : st.findHolder s.sid isHome = some x) (hr : s.ref ≠ 1) :
+    Sess.release s ∈ (st.step (.endCallHome p)).1.sessions ∧
+    (st.step (.endCallHome p)).1.holders = st.holders.erase x ∧
+    (st.step (.endCallHome p)).1.ledger = st.ledger ∧ (st.step (.endCallHome p)).1.events = st.events := by
+  obtain ⟨hsm, _⟩ := lookup_some hl
+  obtain ⟨hxm, hxs, hk⟩ := findHolder_some hx
+  have hxs' : s.sid = x.sid := by simpa using hxs.symm
+  rw [(end_call_home_is_release st p s x hf hl hx).1]
+  obtain ⟨hrel, hmem⟩ := release_keeps_referenced_session h x hxm s hsm hxs' (Or.inr hr)
+  refine ⟨hmem, ?_, ?_, ?_⟩ <;> rw [hrel] <;> unfold St.dropHolder <;> rw [if_pos hxm]
+  · have : x.kind.isAlloc = false := by
+      revert hk; cases x.kind <;> simp [isHome, HKind.isAlloc]
+    simp [this]
+  · rfl
+
 /-- A session the application has taken over is never reclaimed by an I/O pass, however long it is idle (the reclamation
 walk and the idle accounting are for `type == COAP_SESSION_TYPE_SERVER`): it is the application's to end. -/
 theorem client_session_survives_pass {st : St} (h : Reachable st) (now : Nat) (t : Sess)
@@ -819,11 +919,45 @@ example : let st := st0.run [.rx pA .plain, .callHome pA, .endCallHome pA]
 /-- the peer's next datagram gets a FRESH session, and the whole ledger is accepted after teardown -/
 example : let st := st0.run [.rx pA .plain, .callHome pA, .endCallHome pA, .rx pA .plain, .freeContext]
     st.events = [.new 8, .handed 8, .new 9, .del 9] ∧ ledgerOk st.ledger = true := by decide
-/-- D16: while an observation refers to the session the application does not end it; after the deregistration it does -/
+/-- D16 lifted: the application releases its call-home reference while an observation still refers to the session — the
+    session lives on as a CLIENT session with the observation's reference; the peer's Observe deregistration then lets the
+    LAST holder go from inside the receive path: the session is freed when the datagram has been dealt with (`handed`, no
+    session-deleted event), the table is empty and no holder is left -/
 example : let st := st0.run [.rx pA (.obsReg 0 0 0), .callHome pA, .endCallHome pA]
-    st.sessions.map (fun s => (s.ref, s.client)) = [(2, true)] := by decide
-example : (st0.run [.rx pA (.obsReg 0 0 0), .callHome pA, .endCallHome pA, .rx pA (.obsDereg 0 0 0), .endCallHome pA]).sessions = [] := by
-  decide
+    st.sessions.map (fun s => (s.ref, s.client)) = [(1, true)] ∧ st.holders.map (·.kind) = [.obs 0 0 0 0] := by decide
+example : let st := st0.run [.rx pA (.obsReg 0 0 0), .callHome pA, .endCallHome pA, .rx pA (.obsDereg 0 0 0)]
+    st.sessions = [] ∧ st.holders = [] ∧ st.events = [.new 8, .handed 8] ∧ st.ledger.count (.free 8) = 1 := by decide
+/-- … the same with the last holder being: the observation cancelled by a Reset of its notification, a queued ping
+    answered by an ACK / given up after the last retransmission, a deferred response being sent, the application's own
+    coap_free_async / coap_session_release, the deletion of the resource, the teardown -/
+example : let st := st0.run [.rx pA (.obsReg 0 0 0), .callHome pA, .endCallHome pA, .changed 0, .io, .noteRst pA 0]
+    st.sessions = [] ∧ st.holders = [] ∧ st.events = [.new 8, .handed 8] := by decide
+example : let st := st0.run [.rx pA .plain, .ping pA, .callHome pA, .endCallHome pA, .ack pA false]
+    st.sessions = [] ∧ st.holders = [] ∧ st.events = [.new 8, .handed 8] := by decide
+example : let st := st0.run [.rx pA .plain, .ping pA, .callHome pA, .endCallHome pA, .advance 2000, .io, .advance 4000, .io,
+      .advance 8000, .io, .advance 16000, .io, .advance 32000, .io]
+    st.sessions = [] ∧ st.holders = [] ∧ st.events = [.new 8, .handed 8] := by decide
+example : let st := st0.run [.rx pA (.slow 40 5), .callHome pA, .endCallHome pA, .advance 40, .io]
+    st.sessions = [] ∧ st.holders = [] ∧ st.events = [.new 8, .handed 8] := by decide
+example : let st := st0.run [.rx pA .async, .callHome pA, .endCallHome pA, .asyncFree pA]
+    st.sessions = [] ∧ st.holders = [] ∧ st.events = [.new 8, .handed 8] := by decide
+example : let st := st0.run [.rx pA .plain, .appRef pA, .callHome pA, .endCallHome pA, .appRelease pA]
+    st.sessions = [] ∧ st.holders = [] ∧ st.events = [.new 8, .handed 8] := by decide
+example : let st := st0.run [.rx pA (.obsReg 0 0 0), .callHome pA, .endCallHome pA, .delResource 0]
+    st.sessions = [] ∧ st.holders = [] ∧ st.events = [.new 8, .handed 8] := by decide
+example : let st := st0.run [.rx pA (.obsReg 0 0 0), .callHome pA, .endCallHome pA, .freeContext]
+    st.sessions = [] ∧ st.events = [.new 8, .handed 8] ∧ ledgerOk st.ledger = true := by decide
+/-- the hypotheses of `last_release_frees_client_session` (the observation is the only holder left of a client session) and
+    of `early_release_keeps_session` / `release_keeps_referenced_session` (`ref = 2`, the application's token is there) are
+    satisfiable -/
+example : let st := st0.run [.rx pA (.obsReg 0 0 0), .callHome pA, .endCallHome pA]
+    st.sessions.map (fun s => (s.sid, s.ref, s.client)) = [(8, 1, true)] ∧ st.holders.map (·.sid) = [8] := by decide
+example : let st := st0.run [.rx pA (.obsReg 0 0 0), .callHome pA]
+    st.freed = false ∧
+    (st.lookup pA).map (fun s => (s.ref, s.client, (st.findHolder s.sid isHome).isSome)) = some (2, true, true) := by decide
+/-- D17: coap_session_disconnected on a client session the application holds no reference on is skipped -/
+example : ((st0.run [.rx pA (.obsReg 0 0 0), .callHome pA, .endCallHome pA]).step (.disconnect pA)).2 = .skip ∧
+    ((st0.run [.rx pA (.obsReg 0 0 0), .callHome pA]).step (.disconnect pA)).2 = .ok := by decide
 /-- a call-home session is not reclaimed by the session timeout; at teardown it is deleted like every session of the table;
     a second coap_session_set_type_client, a ping and a coap_send on it are refused -/
 example : let st := st0.run [.rx pA .plain, .callHome pA, .callHome pA, .ping pA, .sendCon pA, .advance 400000, .io]
